@@ -590,6 +590,53 @@ def rule_ts_rescale(P):
     return r
 
 
+def rule_factor_rescale(P):
+    r = RuleResult("FACTOR-RESCALE", "next_column of the rescaled parser: the new column's coefficient is cumulative - "
+                   "(stored prefix weight of the previous column) / (stored prefix weight of the new column) × the previous column's "
+                   "coefficient.  SCAN multiplies every carried value by the previous coefficient, so only the cumulative form keeps "
+                   "the stored values O(1); without the carried factor the coefficient alternates 1, 1/p, 1, ... and the stored values "
+                   "decay like p^(k/2), underflowing on long low-probability contexts (the case the rescaled variant exists for)",
+                   "the rescaling coefficient carries over from column to column")
+    f = P.func("parse/earley_rescaled.py::Earley.next_column")
+    r.looked_at(f)
+    cols = [n for n in walk_live(f.node) if isinstance(n, ast.Assign) and isinstance(n.value, ast.Call) and W.call_name(n.value) == "Column"
+            and isinstance(n.targets[0], ast.Name)]
+    if len(cols) != 1:
+        raise AnalysisError("earley_rescaled next_column: Column(...) construction not found")
+    new = cols[0].targets[0].id
+    stores = [n for n in walk_live(f.node) if isinstance(n, ast.Assign) and any(isinstance(t, ast.Attribute) and t.attr == "rescale" and W.is_name(t.value, new)
+                                                                                 for t in n.targets)]
+    general = [n for n in stores if W.int_const(n.value) is None]
+    if len(general) != 1:
+        r.undecided(f, f.node, f"{len(general)} non-constant assignments of `{new}.rescale`", construct="next_column: rescale coefficient")
+        return r
+    st = general[0]
+    num, den = W.cfactors(f.node, st.value, st)
+
+    def through(x):
+        # a temporary holding a chart look-up (`num = prev_col.c_chart.get((0, S), zero)`) stands for that look-up
+        if x.isidentifier():
+            v = W.single_def(f.node, x)
+            if v is not None:
+                return W.cnorm(f.node, v, st)
+        return x
+
+    num, den = [through(x) for x in num], [through(x) for x in den]
+    prevs = [x for x in num if x.endswith(".rescale")]
+    charts_n = [x for x in num if ".c_chart" in x]
+    charts_d = [x for x in den if ".c_chart" in x]
+    if len(charts_n) != 1 or len(charts_d) != 1 or len(num) > 2 or len(den) != 1 or f"{new}." not in charts_d[0] or f"{new}." in charts_n[0]:
+        r.undecided(f, st, f"coefficient `{norm(st.value)}` (factors {num} / {den}) is not a ratio of the two columns' prefix weights",
+                    construct="next_column: rescale coefficient")
+        return r
+    ok = len(prevs) == 1 and not prevs[0].startswith(f"{new}.")
+    r.add(f, st, ok, "" if ok else f"`{first_line(st)}`: the previous column's coefficient is not carried into the new one (factors {' · '.join(num)} / "
+          f"{' · '.join(den)}): the coefficients alternate instead of tracking 1/p, stored values decay geometrically and underflow to 0 on long "
+          f"contexts, where p_next then returns an empty chart", slots=dict(numerator=num, denominator=den), construct="next_column: rescale coefficient")
+    r.min_instances = 1
+    return r
+
+
 def _assigned_on_all_paths(stmts, name, attr, after=None):
     started = after is None
     for s in stmts:
